@@ -5,6 +5,7 @@ import (
 	"context"
 	"encoding/binary"
 	"fmt"
+	multihash "github.com/multiformats/go-multihash"
 	"sort"
 	"strings"
 	"sync"
@@ -427,6 +428,13 @@ func runChannelIDs() (string, []explore.Violation) {
 	for i := 0; i < 5; i++ {
 		pool = append(pool, sim.DeterministicPeerID(fmt.Sprintf("pool%d", i)))
 	}
+	// peer ids of other key types print with another length and prefix ("Qm..." for hashed RSA keys, 46
+	// characters, against 52 for the inlined Ed25519 keys above): two of those as well
+	for i := 0; i < 2; i++ {
+		if mh, err := multihash.Sum([]byte(fmt.Sprintf("verif-rsa-like-%d", i)), multihash.SHA2_256, -1); err == nil {
+			pool = append(pool, peer.ID(mh))
+		}
+	}
 	topicOf := map[[2]int]string{}
 	var mu sync.Mutex
 	var wg sync.WaitGroup
@@ -744,7 +752,7 @@ func runDirectChannelConcurrentSends() (string, []explore.Violation) {
 func init() {
 	explore.Register(&explore.CheckDef{
 		ID: "C20", Level: "exploration",
-		Rule: "pubsubcoreapi over a scripted PubSub API whose poll loop is stepped one membership snapshot at a time: every sequence of <= 3 (quick) / <= 4 (thorough) snapshots over 3 remote peers, each snapshot a duplicate-free set in every list order (16 ordered lists): joins and leaves reported must be exactly the set differences of consecutive snapshots, once each, and Peers() the last snapshot; every message sequence of length <= 3 over sender {self, p1, p2} x payload {empty, 1 byte, 64 KiB} must be delivered as exactly the multiset of its non-self payloads, byte-identical (order is not part of the statement and is not judged) (topic adapter and one-on-one channel monitor, the latter attributed to the channel's remote peer). oneonone: channel names symmetric, distinct and used for sending, for all 20 ordered pairs of 5 peer ids; two overlapping Connect calls for one peer (the subscription call held open) must leave one subscription and deliver a later payload once. directchannel over an in-memory host: 10 payload sizes from 0 to the frame limit +1 (exact bytes, exact sender, once; oversize refused and the next frame still delivered; raw frames declaring 4 MiB+1 up to 2^64-1 bytes refused likewise) and all 6 interleavings of two senders x two frames; two concurrent Sends through one channel object (prefixes of different length, one or two receivers) with every stream write a schedule point, all 6 write orders. pubsubraw over three real in-memory libp2p hosts with gossipsub: every message sequence of length <= 2 over 3 senders x 2 sizes, receipt-based waiting (bounded input enumeration without schedule control; a delivery the library does not make in time ends the case as inconclusive, not as a violation). Non-trivial = sequences in which membership changes / a self-sent message occurs.",
+		Rule: "pubsubcoreapi over a scripted PubSub API whose poll loop is stepped one membership snapshot at a time: every sequence of <= 3 (quick) / <= 4 (thorough) snapshots over 3 remote peers, each snapshot a duplicate-free set in every list order (16 ordered lists): joins and leaves reported must be exactly the set differences of consecutive snapshots, once each, and Peers() the last snapshot; every message sequence of length <= 3 over sender {self, p1, p2} x payload {empty, 1 byte, 64 KiB} must be delivered as exactly the multiset of its non-self payloads, byte-identical (order is not part of the statement and is not judged) (topic adapter and one-on-one channel monitor, the latter attributed to the channel's remote peer). oneonone: channel names symmetric, distinct and used for sending, for all 42 ordered pairs of 7 peer ids (two key types, whose printed ids differ in length); two overlapping Connect calls for one peer (the subscription call held open) must leave one subscription and deliver a later payload once. directchannel over an in-memory host: 10 payload sizes from 0 to the frame limit +1 (exact bytes, exact sender, once; oversize refused and the next frame still delivered; raw frames declaring 4 MiB+1 up to 2^64-1 bytes refused likewise) and all 6 interleavings of two senders x two frames; two concurrent Sends through one channel object (prefixes of different length, one or two receivers) with every stream write a schedule point, all 6 write orders. pubsubraw over three real in-memory libp2p hosts with gossipsub: every message sequence of length <= 2 over 3 senders x 2 sizes, receipt-based waiting (bounded input enumeration without schedule control; a delivery the library does not make in time ends the case as inconclusive, not as a violation). Non-trivial = sequences in which membership changes / a self-sent message occurs.",
 		Units: func(tier string) []explore.Unit {
 			u := explore.ChunkUnits("membership-"+tier, 16)
 			u = append(u, explore.ChunkUnits("topicmsgs", 4)...)
